@@ -133,3 +133,72 @@ Proof.
       lia. }
     rewrite E1, E2. lia.
 Qed.
+
+From Coq Require Import QArith.
+Local Close Scope Q_scope.
+(* ---- comparator tables: square over the rankings, cell (i, j) compares ranking i with ranking j, symmetric
+   measures give symmetric tables --------------------------------------------------------------------------- *)
+Theorem cmp_table_square {A} (f : list Q -> list Q -> A) cs :
+  length (cmp_table f cs) = length cs /\ forall row, In row (cmp_table f cs) -> length row = length cs.
+Proof.
+  unfold cmp_table. split; [apply map_length|].
+  intros row Hr. apply in_map_iff in Hr. destruct Hr as [v [<- _]]. apply map_length.
+Qed.
+
+Lemma nth_map_any {X Y} (g : X -> Y) l i dY dX : (i < length l)%nat -> nth i (map g l) dY = g (nth i l dX).
+Proof.
+  revert i. induction l as [|a t IH]; intros i Hi; cbn in *; [lia|].
+  destruct i; [reflexivity|]. apply IH. lia.
+Qed.
+
+Theorem cmp_table_cell {A} (f : list Q -> list Q -> A) cs i j d :
+  (i < length cs)%nat -> (j < length cs)%nat ->
+  nth j (nth i (cmp_table f cs) []) d = f (nth i cs []) (nth j cs []).
+Proof.
+  intros Hi Hj. unfold cmp_table.
+  rewrite (nth_map_any (fun v => map (fun u => f v u) cs) cs i [] [] Hi).
+  apply (nth_map_any (fun u => f (nth i cs []) u) cs j d [] Hj).
+Qed.
+
+Theorem cmp_table_symmetric {A} (f : list Q -> list Q -> A) cs i j d :
+  (forall v u, f v u = f u v) -> (i < length cs)%nat -> (j < length cs)%nat ->
+  nth j (nth i (cmp_table f cs) []) d = nth i (nth j (cmp_table f cs) []) d.
+Proof. intros Hs Hi Hj. rewrite !cmp_table_cell by assumption. apply Hs. Qed.
+
+From SKC Require Import Base.QBool Base.QList Model.Transform Model.Weights.
+Local Open Scope Q_scope.
+Theorem scov_sym v u : length v = length u -> scov v u == scov u v.
+Proof.
+  intros L. unfold scov. unfold qn. rewrite L.
+  assert (E : qsum (map2 (fun x y => (x - mean v) * (y - mean u)) v u) ==
+              qsum (map2 (fun x y => (x - mean u) * (y - mean v)) u v)).
+  { generalize (mean v) (mean u). intros a b. clear L. revert u.
+    induction v as [|x t IH]; intros [|y w]; simpl; try reflexivity. rewrite IH. ring. }
+  rewrite E. reflexivity.
+Qed.
+
+Theorem hamming_sym v u : length v = length u -> hamming v u == hamming u v.
+Proof.
+  intros L. unfold hamming. unfold qn. rewrite L.
+  assert (E : qsum (map2 (fun x y => if Qeqb x y then 0 else 1) v u) ==
+              qsum (map2 (fun x y => if Qeqb x y then 0 else 1) u v)).
+  { clear L. revert u. induction v as [|x t IH]; intros [|y w]; simpl; try reflexivity.
+    rewrite IH. rewrite (Qeqb_sym x y). reflexivity. }
+  rewrite E. reflexivity.
+Qed.
+Local Close Scope Q_scope.
+
+(* the covariance and distance tables of a comparator are symmetric (all columns are aligned to the same names,
+   hence of one length); entries are reduced fractions, so the two cells are the same number, not just equal *)
+Theorem cmp_tables_symmetric cs n i j :
+  (forall c, In c cs -> length c = n) -> (i < length cs)%nat -> (j < length cs)%nat ->
+  nth j (nth i (cmp_table (fun v u => Qred (scov v u)) cs) []) 0%Q
+    = nth i (nth j (cmp_table (fun v u => Qred (scov v u)) cs) []) 0%Q /\
+  nth j (nth i (cmp_table (fun v u => Qred (hamming v u)) cs) []) 0%Q
+    = nth i (nth j (cmp_table (fun v u => Qred (hamming v u)) cs) []) 0%Q.
+Proof.
+  intros Hn Hi Hj. rewrite !cmp_table_cell by assumption.
+  assert (L : length (nth i cs []) = length (nth j cs [])).
+  { rewrite (Hn _ (nth_In cs [] Hi)), (Hn _ (nth_In cs [] Hj)). reflexivity. }
+  split; apply Qred_complete; [apply scov_sym|apply hamming_sym]; exact L.
+Qed.
